@@ -1546,6 +1546,11 @@ def _make_gin_wrapper(fn, fn_or_cls, name, selector, allowlist, denylist):
     for arg_name in arg_names:
       if arg_name not in required_arg_names:
         new_kwargs.pop(arg_name, None)
+    # Likewise for arguments the caller passed by keyword: the caller wins, so
+    # the bound value must not be used (or evaluated, if it is a reference).
+    for kwarg in kwargs:
+      if kwarg not in caller_required_kwargs:
+        new_kwargs.pop(kwarg, None)
 
     # Get default values for configurable parameters.
     operative_parameter_values = initial_configurable_defaults.copy()
